@@ -26,18 +26,17 @@ Theorem C14_winbox_match_iff_ref : forall c b,
 Proof. exact wb_match_iff_ref. Qed.
 Theorem C14_winbox_filters_iff_documented : forall c m, wb_filters c m = Yes <-> wb_passes c m.
 Proof. exact wb_filters_iff. Qed.
-(* auth_wf uses the user-name expression of the code; the documented grammar (starts and ends with an
-   alphanumeric) also allows two-character names, which the expression rejects: recorded finding
-   C14:winbox:rejects-valid-two-char-username *)
-Theorem C14_winbox_two_char_username_refuted :
-  exists u, doc_username_ok u = true /\ username_ok u = false /\
-    wb_match {| wc_std := true; wc_romon := true; wc_user := []; wc_rx := None |}
-             (auth_to_bytes {| ma_parity := x01; ma_key := repeat x07 32; ma_user := u |}) = No.
-Proof. exists [x61; x62]. vm_compute. repeat split. Qed.
-Example C14_winbox_doc_grammar_agrees_otherwise :
-  forallb (fun u => Bool.eqb (doc_username_ok u) (username_ok u))
-    [[x61]; [x61; x2d; x62]; [x5f; x61; x62]; [x61; x62; x2e]; [x61; x20; x62]; [x41; x23; x2e; x40; x5f; x39]; []; [x2b; x72]] = true.
-Proof. vm_compute. reflexivity. Qed.
+(* auth_wf uses the user-name expression of the code; it is the documented grammar (first and last byte
+   alphanumeric, inner bytes also _ . # - @), for every byte string - including the two-character names
+   that the expression used to reject *)
+Theorem C14_winbox_username_grammar_is_documented : forall u, username_ok u = doc_username_ok u.
+Proof. exact username_ok_iff_doc. Qed.
+Example C14_winbox_two_char_username_matches :
+  username_ok [x61; x62] = true /\
+  wb_match {| wc_std := true; wc_romon := true; wc_user := []; wc_rx := None |}
+           (auth_to_bytes {| ma_parity := x01; ma_key := repeat x07 32; ma_user := [x61; x62] |}) = Yes /\
+  username_ok [x61; x2d] = false /\ username_ok [x5f; x62] = false /\ username_ok [x61; x20; x62] = false /\ username_ok [x2b; x72] = false.
+Proof. vm_compute. repeat split. Qed.
 
 (* ---- RDP ---- *)
 (* framing, every configuration: a request that matches is exactly the reference header for its own size
@@ -82,19 +81,22 @@ Example C14_rdp_examples :
             (hdr_for (cookie_abcd ++ negreq_tls)) = No.
 Proof. vm_compute. repeat split. Qed.
 
-(* bytes between the correlation info and the declared end of the request are accepted: recorded finding
-   C14:rdp:accepts-invalid-trailing-after-corrinfo *)
-Theorem C14_rdp_trailing_after_corrinfo_refuted :
-  exists junk, junk <> [] /\ rdp_match c0 (hdr_for (negreq_corr ++ corr_ok_bytes ++ junk)) = Yes /\
-               rdp_match c0 (hdr_for (negreq_tls ++ junk)) = No.
-Proof. exists [x03]. split; [discriminate|]. vm_compute. split; reflexivity. Qed.
+(* the correlation info is the last element: bytes between it and the declared end of the request are rejected,
+   like bytes after a negotiation request without the correlation flag *)
+Example C14_rdp_trailing_after_corrinfo_rejected :
+  rdp_match c0 (hdr_for (negreq_corr ++ corr_ok_bytes)) = Yes /\
+  forallb (fun junk => verdict_eqb (rdp_match c0 (hdr_for (negreq_corr ++ corr_ok_bytes ++ junk))) No &&
+                       verdict_eqb (rdp_match c0 (hdr_for (cookie_abcd ++ negreq_corr ++ corr_ok_bytes ++ junk))) No &&
+                       verdict_eqb (rdp_match c0 (hdr_for (negreq_tls ++ junk))) No)
+          [[x03]; [x00]; [x00; x00]; [x0a; x0d]; [x01; x00; x08; x00; x00; x00; x00; x00]; corr_ok_bytes] = true.
+Proof. vm_compute. split; reflexivity. Qed.
 
 Print Assumptions C14_wireguard_match_iff_ref.
 Print Assumptions C14_winbox_match_iff_ref.
 Print Assumptions C14_winbox_filters_iff_documented.
-Print Assumptions C14_winbox_two_char_username_refuted.
-Print Assumptions C14_winbox_doc_grammar_agrees_otherwise.
+Print Assumptions C14_winbox_username_grammar_is_documented.
+Print Assumptions C14_winbox_two_char_username_matches.
 Print Assumptions C14_rdp_match_framing_partial.
 Print Assumptions C14_rdp_payload_decision_is_yes_or_no.
 Print Assumptions C14_rdp_examples.
-Print Assumptions C14_rdp_trailing_after_corrinfo_refuted.
+Print Assumptions C14_rdp_trailing_after_corrinfo_rejected.
